@@ -56,7 +56,11 @@ func EmbedX(l, x *core.Lane, kind int, parts [][]byte, surround bool) *Embedded 
 		if surround {
 			max = 6
 		}
-		j := DrawJPEG(l, JPEGOpts{Exif: [][]byte{parts[0]}, XMP: xmps, Max: max})
+		exifs := [][]byte{parts[0]}
+		if x != nil && x.Chance(1, 6) {
+			exifs = append(exifs, parts[0]) // the same Exif block in a second APP1 segment
+		}
+		j := DrawJPEG(l, JPEGOpts{Exif: exifs, XMP: xmps, Max: max})
 		e.Bytes = j.Bytes
 		for _, s := range j.Segs {
 			if s.Kind == "exif" {
